@@ -20,8 +20,8 @@ ASSUMPTIONS = ["nazalog.Assert has the default behaviour (log only)",
 FULL_OUTPUT = True
 TIMEOUT = 1500
 
-# known findings: panic sites whose repair is not small (none are open right now)
-KNOWN_SITES = {}
+# known findings: panic sites whose repair is not in lal's tree
+KNOWN_SITES = {"nazahttp.ReadHttpMessage:makeslice": "C13-KF-01", "nazahttp.ReadHttpMessage:oom": "C13-KF-01"}
 
 
 # ---------------------------------------------------------------- independent encoders (RFC 3550, 3640, 6184, 7798, 2326, 6455)
@@ -652,8 +652,381 @@ def gen_ps(tier, rng):
         yield Case(ps_line(rng.choice([1024, 2]), pk), cls="ps-random")
 
 
+# ---------------------------------------------------------------- RTMP (client side), SDP lines, URLs
+def amf_str(x):
+    b = x.encode()
+    return b"\x02" + struct.pack(">H", len(b)) + b
+
+
+def amf_num(v):
+    return b"\x00" + struct.pack(">d", v)
+
+
+def amf_obj(pairs):
+    out = b"\x03"
+    for k, v in pairs:
+        kb = k.encode()
+        out += struct.pack(">H", len(kb)) + kb + (amf_str(v) if isinstance(v, str) else amf_num(v))
+    return out + b"\x00\x00\x09"
+
+
+def rtmp_msg(csid, typeid, msid, ts, payload, chunk=128):
+    out = b""
+    first = True
+    for i in range(0, max(len(payload), 1), chunk):
+        if first:
+            out += bytes([csid & 0x3f]) + ts.to_bytes(3, "big") + len(payload).to_bytes(3, "big") + bytes([typeid]) + struct.pack("<I", msid)
+            first = False
+        else:
+            out += bytes([0xc0 | (csid & 0x3f)])
+        out += payload[i:i + chunk]
+    return out
+
+
+def rtmp_server_stream(rng, push=False):
+    """what an origin sends to a pulling / pushing client after the handshake"""
+    s = rtmp_msg(2, 5, 0, 0, struct.pack(">I", 5000000))
+    s += rtmp_msg(2, 6, 0, 0, struct.pack(">IB", 5000000, 2))
+    s += rtmp_msg(2, 1, 0, 0, struct.pack(">I", 128))
+    s += rtmp_msg(3, 20, 0, 0, amf_str("_result") + amf_num(1) + amf_obj([("fmsVer", "FMS/3,0,1,123"), ("capabilities", 31.0)])
+                  + amf_obj([("level", "status"), ("code", "NetConnection.Connect.Success"), ("description", "Connection succeeded."), ("objectEncoding", 0.0)]))
+    s += rtmp_msg(3, 20, 0, 0, amf_str("onBWDone") + amf_num(0) + b"\x05")
+    s += rtmp_msg(3, 20, 0, 0, amf_str("_result") + amf_num(2) + b"\x05" + amf_num(1))
+    s += rtmp_msg(2, 4, 0, 0, struct.pack(">HI", 0, 1))
+    code = "NetStream.Publish.Start" if push else "NetStream.Play.Start"
+    s += rtmp_msg(5, 20, 1, 0, amf_str("onStatus") + amf_num(0) + b"\x05" + amf_obj([("level", "status"), ("code", code), ("description", "ok")]))
+    if not push:
+        s += rtmp_msg(5, 18, 1, 0, amf_str("|RtmpSampleAccess") + b"\x01\x01\x01\x01")
+        s += rtmp_msg(5, 18, 1, 0, amf_str("onMetaData") + amf_obj([("width", 640.0), ("encoder", "x")]))
+        s += rtmp_msg(6, 9, 1, 0, b"\x17\x00\x00\x00\x00" + rb(rng, 30))
+        s += rtmp_msg(4, 8, 1, 0, b"\xaf\x00\x12\x10")
+        s += rtmp_msg(6, 9, 1, 40, b"\x27\x01\x00\x00\x00" + rb(rng, 200))
+        s += rtmp_msg(2, 4, 0, 0, struct.pack(">HI", 6, 12345))
+        s += rtmp_msg(2, 3, 0, 0, struct.pack(">I", 100000))
+    return s
+
+
+def gen_rtmpc(tier, rng):
+    for t in range(256):
+        for n in (0, 1, 2, 3, 4, 5, 6, 7):
+            if t in (18, 20) and n > 1:
+                continue
+            yield Case("c13.rtmpc %d %d %s" % (t & 1, t, hex_tok(rb(rng, n))), cls="rtmpc-type")
+    for ev in range(0, 9):
+        for n in range(0, 9):
+            p = (struct.pack(">H", ev) + rb(rng, 8))[:n]
+            yield Case("c13.rtmpc 0 4 %s" % hex_tok(p), cls="rtmpc-userctl")
+    for n in range(0, 7):
+        yield Case("c13.rtmpc 1 3 %s" % hex_tok(rb(rng, n)), cls="rtmpc-ack")
+        for t in (1, 5, 6):
+            yield Case("c13.rtmpc 0 %d %s" % (t, hex_tok(rb(rng, n))), cls="rtmpc-ctl")
+    for _ in range(60 if tier == "quick" else 20000):
+        t = rng.choice([0, 2, 3, 3, 4, 4, 4, 7, 15, 16, 17, 19, 22, 255, rng.randrange(256)])
+        p = bytearray(rb(rng, rng.choice([0, 1, 2, 3, 4, 5, 6, 8, 12])))
+        if t == 4 and len(p) >= 2 and rng.random() < 0.6:
+            p[0:2] = b"\x00\x06"
+        yield Case("c13.rtmpc %d %d %s" % (rng.randrange(2), t, hex_tok(bytes(p))), cls="rtmpc-random")
+    # whole client read loop on an origin's byte stream (AMF0 / chunk layer included; not modelled)
+    for push in (0, 1):
+        v = rtmp_server_stream(rng, push=bool(push))
+        yield Case("c13x.rtmpclient %d %s" % (push, hex_tok(v)), cls="x-rtmpclient")
+        step = 1 if tier == "thorough" else 7
+        for cut in range(0, len(v), step):
+            yield Case("c13x.rtmpclient %d %s" % (push, hex_tok(v[:cut])), cls="x-rtmpclient")
+        for t in (0, 2, 7, 15, 16, 17, 19, 22, 23, 64, 255):
+            for n in (0, 1, 4):
+                yield Case("c13x.rtmpclient %d %s" % (push, hex_tok(v[:40] + rtmp_msg(3, t, 0, 0, rb(rng, n)) + v[40:80])), cls="x-rtmpclient")
+        for _ in range(150 if tier == "quick" else 20000):
+            yield Case("c13x.rtmpclient %d %s" % (push, hex_tok(mutate(rng, mutate(rng, v) if rng.random() < 0.3 else v))), cls="x-rtmpclient")
+    # http-flv pull: response of the origin
+    tagb = lambda t, ts, p: bytes([t]) + len(p).to_bytes(3, "big") + (ts & 0xffffff).to_bytes(3, "big") + bytes([ts >> 24]) + b"\0\0\0" + p + (11 + len(p)).to_bytes(4, "big")
+    resp = (b"HTTP/1.1 200 OK\r\nServer: x\r\nContent-Type: video/x-flv\r\nConnection: close\r\n\r\n" + b"FLV\x01\x05\0\0\0\x09\0\0\0\0"
+            + tagb(18, 0, rb(rng, 20)) + tagb(9, 0, b"\x17\x00" + rb(rng, 20)) + tagb(8, 10, b"\xaf\x01" + rb(rng, 5)))
+    yield Case("c13x.flvpull " + hex_tok(resp), cls="x-flvpull")
+    for cut in range(0, len(resp), 1 if tier == "thorough" else 3):
+        yield Case("c13x.flvpull " + hex_tok(resp[:cut]), cls="x-flvpull")
+    for line in (b"HTTP/1.1 302 Found\r\nLocation: http://x/y.flv\r\n\r\n", b"HTTP/1.1\r\n\r\n", b"\r\n\r\n", b"HTTP/1.1 200\r\n\r\n", b" \r\n\r\n", b"HTTP/1.1 200 OK\r\nX\r\n\r\n",
+                 b"HTTP/1.1 200 OK\r\n: \r\n\r\n", b"HTTP/1.1 200 OK\n\n", b"a b\r\n\r\nFLV", b"HTTP/1.1  200  OK\r\nA:b\r\n\r\n" + b"FLV\x01\x05\0\0\0\x09\0\0\0\0" + b"\x09\xff\xff\xff" + bytes(11)):
+        yield Case("c13x.flvpull " + hex_tok(line), cls="x-flvpull")
+    for _ in range(200 if tier == "quick" else 20000):
+        yield Case("c13x.flvpull " + hex_tok(mutate(rng, resp)), cls="x-flvpull")
+
+
+def text_mutate(rng, b, seps):
+    b = bytearray(b)
+    k = rng.randrange(6)
+    if k == 0:
+        return bytes(b[:rng.randrange(len(b) + 1)])
+    if k == 1 and b:
+        i = rng.randrange(len(b))
+        b[i:i + 1] = rng.choice(seps)
+    elif k == 2 and b:
+        del b[rng.randrange(len(b))]
+    elif k == 3:
+        i = rng.randrange(len(b) + 1)
+        b[i:i] = rng.choice(seps + [b"0", b"-1", b"99999999999999999999", b" ", b"\t", b"+"])
+    elif k == 4 and b:
+        i = rng.randrange(len(b))
+        j = rng.randrange(i, len(b) + 1)
+        b[i:j] = b""
+    else:
+        i = rng.randrange(len(b) + 1)
+        b[i:i] = b[:rng.randrange(len(b) + 1)]
+    return bytes(b)
+
+
+SDP_TEXT = (b"v=0\r\no=- 0 0 IN IP4 127.0.0.1\r\ns=No Name\r\nc=IN IP4 127.0.0.1\r\nt=0 0\r\na=tool:libavformat\r\n"
+            b"m=video 0 RTP/AVP 96\r\na=rtpmap:96 H264/90000\r\na=fmtp:96 packetization-mode=1; sprop-parameter-sets=Z2QAIKzZQMApsBEAAAMAAQAAAwAyDxgxlg==,aOvssiw=; profile-level-id=640020\r\na=control:streamid=0\r\n"
+            b"m=audio 0 RTP/AVP 97\r\nb=AS:128\r\na=rtpmap:97 MPEG4-GENERIC/44100/2\r\na=fmtp:97 profile-level-id=1;mode=AAC-hbr;sizelength=13;indexlength=3;indexdeltalength=3; config=121056E500\r\na=control:streamid=1\r\n")
+SDP_H265 = (b"v=0\r\nm=video 0 RTP/AVP 98\r\na=rtpmap:98 H265/90000\r\na=fmtp:98 sprop-vps=QAEMAf//AWAAAAMAkAAAAwAAAwA/ugJA; sprop-sps=QgEBAWAAAAMAkAAAAwAAAwA/oAUCAXHy5bpKTC8BAQAAAwABAAADAA8I; sprop-pps=RAHAc8GJ\r\na=control:trackID=0\r\n"
+            b"m=audio 0 RTP/AVP 8\r\na=control:trackID=1\r\n")
+
+
+def gen_text(tier, rng):
+    seps = [b":", b" ", b"/", b";", b"=", b","]
+    rtpmaps = [b"a=rtpmap:96 H264/90000", b"a=rtpmap:97 MPEG4-GENERIC/44100/2", b"a=rtpmap:8 PCMA/8000/1", b"a=rtpmap:-1 x/0", b"a=rtpmap:96 H264", b"a=rtpmap:96", b"a=rtpmap", b"a=rtpmap:",
+               b"a=rtpmap: /", b"a=rtpmap:96 /", b"a=rtpmap:96 //", b"a=rtpmap:+5 a/+7/c/d", b"a=rtpmap:9223372036854775807 a/-9223372036854775808", b"a=rtpmap:9223372036854775808 a/1",
+               b"a=rtpmap:1 a/-9223372036854775809", b"a=rtpmap:1 a/ 1", b"a=rtpmap:0x10 a/1", b"a=rtpmap:1_0 a/1", b"a=rtpmap:- a/1", b"a=rtpmap:1 a/+", b"a=rtpmap:00000000000000000000001 a/000"]
+    for l in rtpmaps:
+        yield Case("c13.rtpmap " + hex_tok(l), cls="sdp-rtpmap")
+        for t in truncations(l):
+            yield Case("c13.rtpmap " + hex_tok(t), cls="sdp-rtpmap")
+    fmtps = [b"a=fmtp:96 packetization-mode=1; sprop-parameter-sets=Z2QAIA==,aOvssiw=; profile-level-id=640020", b"a=fmtp:97 profile-level-id=1;mode=AAC-hbr;config=1210;", b"a=fmtp:96 ;a=b", b"a=fmtp:96 a=b;;c=d",
+             b"a=fmtp:96 a", b"a=fmtp:96 ", b"a=fmtp:96", b"a=fmtp:", b"a=fmtp", b"a=fmtp:x a=b", b"a=fmtp:96 a=b; a=c;a =d", b"a=fmtp:96 =", b"a=fmtp:96 ;;;", b"a=fmtp:96 \ta=b\t;\r c==d\n"]
+    for l in fmtps:
+        yield Case("c13.fmtp " + hex_tok(l), cls="sdp-fmtp")
+        for t in truncations(l):
+            yield Case("c13.fmtp " + hex_tok(t), cls="sdp-fmtp")
+    for l in (b"m=video 0 RTP/AVP 96", b"m=audio 0 RTP/AVP 8 0 97", b"m=", b"m", b"", b"m=audio", b"m=audio 0 RTP/AVP", b"m=audio 0 RTP/AVP x", b"m=a  b c", b"video 0 RTP/AVP -7", b"m=m=a 1 2 3"):
+        yield Case("c13.sdpm " + hex_tok(l), cls="sdp-m")
+    for _ in range(150 if tier == "quick" else 20000):
+        yield Case("c13.rtpmap " + hex_tok(text_mutate(rng, rng.choice(rtpmaps), seps)), cls="sdp-rtpmap-mut")
+        yield Case("c13.fmtp " + hex_tok(text_mutate(rng, rng.choice(fmtps), seps)), cls="sdp-fmtp-mut")
+    # whole SDP through ParseSdp2LogicContext + InitWithSdp + a few RTP packets (library decoding inside: not modelled)
+    lines = SDP_TEXT.split(b"\r\n")
+    for sd in (SDP_TEXT, SDP_H265):
+        yield Case("c13x.sdp " + hex_tok(sd), cls="x-sdp")
+        for cut in range(0, len(sd), 1 if tier == "thorough" else 5):
+            yield Case("c13x.sdp " + hex_tok(sd[:cut]), cls="x-sdp")
+    for clk in CLOCKS:
+        yield Case("c13x.sdp " + hex_tok(SDP_TEXT.replace(b"90000", str(clk).encode()).replace(b"44100", str(clk).encode())), cls="x-sdp")
+    for _ in range(300 if tier == "quick" else 30000):
+        sd = rng.choice([SDP_TEXT, SDP_H265])
+        if rng.random() < 0.5:
+            ls = sd.split(b"\r\n")
+            i = rng.randrange(len(ls))
+            ls[i] = text_mutate(rng, ls[i], seps)
+            if rng.random() < 0.2:
+                del ls[rng.randrange(len(ls))]
+            sd = b"\r\n".join(ls)
+        else:
+            sd = text_mutate(rng, sd, seps + [b"\r\n", b"\n", b"m=", b"a=fmtp", b"a=rtpmap:"])
+        yield Case("c13x.sdp " + hex_tok(sd), cls="x-sdp")
+    # URLs
+    alpha = b"/?a.-=1&"
+    texts = [b"/live/test110", b"/live/test110?a=b", b"/test110", b"/", b"", b"//", b"/a/", b"/a?x?y", b"/a/b?x?y", b"/vyun?vhost=thirdVhost?token=88F4/lss_7", b"/a?x?y/z", b"/?x?y", b"/a??",
+             b"?x?y", b"/a/b/c/d?e=f&g=h", b"/a?/?/"]
+    for t in texts:
+        yield Case("c13.rtmpurl " + hex_tok(t), cls="url-rtmp")
+    hls = [b"/hls/test110.m3u8", b"/hls/test110/playlist.m3u8", b"/hls/test110/record.m3u8", b"/hls/test110/test110-1620540712084-0.ts", b"/hls/test110-1620540712084-0.ts", b"/playlist.m3u8",
+           b"/record.m3u8", b"/.m3u8", b"/.ts", b"/a.ts", b"/a-b.ts", b"/-.ts", b"/--.ts", b"/a--.ts", b"/..-1-2.ts", b"/x/../playlist.m3u8", b"/a.m3u8?x=playlist.m3u8", b"/", b"", b"/a.b.ts", b"/a.ts.m3u8",
+           b"/hls/", b"/hls", b"/a.mp4", b"//playlist.m3u8"]
+    for t in hls:
+        yield Case("c13.hlsreq " + hex_tok(t), cls="url-hls")
+        yield Case("c13.rtmpurl " + hex_tok(t), cls="url-rtmp")
+    for _ in range(400 if tier == "quick" else 40000):
+        n = rng.randrange(0, 12)
+        t = bytes(rng.choice(alpha) for _ in range(n))
+        if t and not t.startswith(b"/") and not t.startswith(b"?"):
+            t = b"/" + t
+        yield Case("c13.rtmpurl " + hex_tok(t), cls="url-rtmp-random")
+        t2 = t.replace(b"?", b"/") + rng.choice([b".ts", b".m3u8", b"/playlist.m3u8", b"-1-2.ts", b""])
+        if not t2.startswith(b"/"):
+            t2 = b"/" + t2
+        yield Case("c13.hlsreq " + hex_tok(t2), cls="url-hls-random")
+    full = b"abc/:?#[]@!$&'()*+,;=%20-._~ \x00\x7f\xff"
+    urls = [b"rtmp://127.0.0.1/live/test110", b"rtmp://h:1935/a?x?y", b"rtsp://u:p@h:554/live/x?token=1", b"http://h/hls/a.m3u8", b"http://[::1]:80/a.flv", b"rtmp://h:99999/a/b", b"rtmp://h:-1/a/b",
+            b"http://h:x/a.flv", b"rtmp:///a/b", b"rtmp:a", b"://", b"rtmp://h/%zz", b"rtmp://h/a%2fb?c%3fd?e"]
+    for u in urls:
+        yield Case("c13x.url " + hex_tok(u), cls="x-url")
+    for _ in range(300 if tier == "quick" else 30000):
+        if rng.random() < 0.5:
+            u = text_mutate(rng, rng.choice(urls), [b"/", b"?", b":", b"@", b"#", b"%", b"[", b"]"])
+        else:
+            u = rng.choice([b"rtmp://", b"http://", b"rtsp://", b""]) + bytes(rng.choice(full) for _ in range(rng.randrange(0, 14)))
+        yield Case("c13x.url " + hex_tok(u), cls="x-url")
+
+
+# ---------------------------------------------------------------- RTSP command sessions, HTTP API bodies (library surface: not modelled)
+def rtsp_req(method, uri, cseq, headers=(), body=b""):
+    out = ("%s %s RTSP/1.0\r\nCSeq: %s\r\n" % (method, uri, cseq)).encode()
+    for k, v in headers:
+        out += ("%s: %s\r\n" % (k, v)).encode()
+    if body:
+        out += ("Content-Length: %d\r\n" % len(body)).encode()
+    return out + b"\r\n" + body
+
+
+def rtsp_pub_exchange(rng, udp=False, sdp=None):
+    u = "rtsp://127.0.0.1:5544/live/x"
+    sdp = SDP_TEXT if sdp is None else sdp
+    tr = lambda a, b: ("RTP/AVP/UDP;unicast;client_port=%d-%d;mode=record" % (40000 + a, 40000 + b)) if udp else ("RTP/AVP/TCP;unicast;interleaved=%d-%d;mode=record" % (a, b))
+    parts = [rtsp_req("OPTIONS", u, 1, [("User-Agent", "Lavf58")]),
+             rtsp_req("ANNOUNCE", u, 2, [("Content-Type", "application/sdp")], sdp),
+             rtsp_req("SETUP", u + "/streamid=0", 3, [("Transport", tr(0, 1))]),
+             rtsp_req("SETUP", u + "/streamid=1", 4, [("Transport", tr(2, 3)), ("Session", "191201771")]),
+             rtsp_req("RECORD", u, 5, [("Range", "npt=0.000-"), ("Session", "191201771")])]
+    if not udp:
+        parts += [interleaved(0, rtp(96, 1, 0, 7, h264_stapa([b"\x67\x42\x00\x1e", b"\x68\xce\x38\x80"]))),
+                  interleaved(0, rtp(96, 2, 0, 7, b"\x65" + rb(rng, 20))),
+                  interleaved(2, rtp(97, 1, 0, 8, au_payload([rb(rng, 9)]))),
+                  interleaved(1, rtcp_sr(7, 1, 2, 3, 4, 5)),
+                  interleaved(3, rtcp_sr(8, 1, 2, 3, 4, 5))]
+    parts.append(rtsp_req("TEARDOWN", u, 6, [("Session", "191201771")]))
+    return parts
+
+
+def rtsp_sub_exchange(rng, udp=False, auth=None):
+    u = "rtsp://127.0.0.1:5544/live/x"
+    tr = lambda a, b: ("RTP/AVP/UDP;unicast;client_port=%d-%d" % (41000 + a, 41000 + b)) if udp else ("RTP/AVP/TCP;unicast;interleaved=%d-%d" % (a, b))
+    ah = [("Authorization", auth)] if auth else []
+    return [rtsp_req("OPTIONS", u, 1), rtsp_req("DESCRIBE", u, 2, [("Accept", "application/sdp")] + ah),
+            rtsp_req("SETUP", u + "/streamid=0", 3, [("Transport", tr(0, 1))]), rtsp_req("SETUP", u + "/streamid=1", 4, [("Transport", tr(2, 3))]),
+            rtsp_req("PLAY", u, 5, [("Range", "npt=0.000-")]), interleaved(1, bytes([0x80, 201, 0, 1]) + rb(rng, 4)), rtsp_req("TEARDOWN", u, 6)]
+
+
+def ws_wrap(parts, rng):
+    return [ws_frame(p, mask=rb(rng, 4)) for p in parts]
+
+
+HOSTILE_HEADERS = [("CSeq", ""), ("CSeq", "-1"), ("CSeq", "99999999999999999999"), ("Content-Length", "-1"), ("Content-Length", "0"), ("Content-Length", "5"),
+                   ("Content-Length", "99999999999"), ("Content-Length", "abc"), ("Transport", ""), ("Transport", "interleaved="), ("Transport", "RTP/AVP/TCP;interleaved=a-b"),
+                   ("Transport", "RTP/AVP/TCP;interleaved=256-70000"), ("Transport", "RTP/AVP/TCP;interleaved=1"), ("Transport", "RTP/AVP/TCP;interleaved=-"),
+                   ("Transport", "RTP/AVP;client_port="), ("Transport", "RTP/AVP;client_port=-"), ("Transport", "RTP/AVP;client_port=99999-1"), ("Transport", "RTP/AVP;client_port=1"),
+                   ("Transport", "client_port=a-b"), ("Authorization", ""), ("Authorization", "Basic"), ("Authorization", "Basic !!!"), ("Authorization", "Basic dTpw"),
+                   ("Authorization", "Digest"), ("Authorization", 'Digest username="u", realm="r", nonce="n", uri="rtsp://x", response="0"'), ("Authorization", "Digest username=,realm"),
+                   ("Authorization", 'Digest username="u'), ("Session", ""), ("X", "y" * 300)]
+
+
+def gen_sessions(tier, rng):
+    quick = tier == "quick"
+    for ws in (0, 1):
+        for udp in (False, True):
+            for ex in (rtsp_pub_exchange(rng, udp=udp), rtsp_sub_exchange(rng, udp=udp)):
+                parts = ws_wrap(ex, rng) if ws else ex
+                yield Case("c13x.rtsp %d 0 %s" % (ws, hex_tok(b"".join(parts))), cls="x-rtsp")
+    for auth in (1, 2):
+        for a in (None, "Basic dTpw", "Basic dTp4", 'Digest username="u", realm="lal", nonce="x", uri="rtsp://127.0.0.1:5544/live/x", response="0"'):
+            yield Case("c13x.rtsp 0 %d %s" % (auth, hex_tok(b"".join(rtsp_sub_exchange(rng, auth=a)))), cls="x-rtsp-auth")
+    for ws in (0, 1):
+        for ex in (rtsp_pub_exchange(rng), rtsp_sub_exchange(rng)):
+            whole = b"".join(ws_wrap(ex, rng) if ws else ex)
+            for cut in range(0, len(whole), 11 if quick else 1):
+                yield Case("c13x.rtsp %d 0 %s" % (ws, hex_tok(whole[:cut])), cls="x-rtsp-trunc")
+            # hostile header values in every request
+            for k in range(len(ex)):
+                if ex[k][:1] == b"$":
+                    continue
+                for hk, hv in HOSTILE_HEADERS:
+                    line = ("%s: %s\r\n" % (hk, hv)).encode()
+                    req = ex[k]
+                    pos = req.find(b"\r\n") + 2
+                    # replace an existing header of that name, else add it
+                    lines = req[pos:].split(b"\r\n")
+                    lines = [l for l in lines if not l.lower().startswith(hk.lower().encode() + b":")]
+                    mreq = req[:pos] + line + b"\r\n".join(lines)
+                    ex2 = ex[:k] + [mreq] + ex[k + 1:]
+                    if quick and rng.random() < 0.75:
+                        continue
+                    yield Case("c13x.rtsp %d %d %s" % (ws, rng.choice([0, 0, 1, 2]), hex_tok(b"".join(ws_wrap(ex2, rng) if ws else ex2))), cls="x-rtsp-header")
+    # hostile SDP bodies in ANNOUNCE, then RTP
+    seps = [b":", b" ", b"/", b";", b"=", b","]
+    for _ in range(60 if quick else 10000):
+        sd = rng.choice([SDP_TEXT, SDP_H265])
+        ls = sd.split(b"\r\n")
+        i = rng.randrange(len(ls))
+        ls[i] = text_mutate(rng, ls[i], seps)
+        ex = rtsp_pub_exchange(rng, sdp=b"\r\n".join(ls))
+        yield Case("c13x.rtsp 0 0 %s" % hex_tok(b"".join(ex)), cls="x-rtsp-sdp")
+    for clk in CLOCKS:
+        ex = rtsp_pub_exchange(rng, sdp=SDP_TEXT.replace(b"90000", str(clk).encode()).replace(b"44100", str(clk).encode()))
+        yield Case("c13x.rtsp 0 0 %s" % hex_tok(b"".join(ex)), cls="x-rtsp-sdp")
+    # interleaved data before / without a session, unknown methods, other orders
+    u = "rtsp://127.0.0.1:5544/live/x"
+    odd = [interleaved(0, rtp(96, 1, 0, 7, b"\x65\x01")), rtsp_req("PLAY", u, 1), rtsp_req("RECORD", u, 1), rtsp_req("SETUP", u, 1, [("Transport", "RTP/AVP/TCP;interleaved=0-1")]),
+           rtsp_req("SETUP", u, 1, [("Transport", "RTP/AVP;client_port=1-2")]), rtsp_req("GET_PARAMETER", u, 1), rtsp_req("options", u, 1), rtsp_req("TEARDOWN", u, 1), rtsp_req("ANNOUNCE", u, 1),
+           rtsp_req("ANNOUNCE", "http://x/y", 1, [], SDP_TEXT), rtsp_req("ANNOUNCE", "rtsp://", 1, [], SDP_TEXT), rtsp_req("DESCRIBE", "rtsp:///", 1), rtsp_req("DESCRIBE", "%zz", 1),
+           b"\r\n\r\n", b"OPTIONS\r\n\r\n", b"OPTIONS a\r\n\r\n", b" \r\n\r\n", b"A B C D\r\n:\r\n\r\n", b"OPTIONS a RTSP/1.0\r\nCSeq\r\n\r\n", b"OPTIONS a RTSP/1.0\nCSeq: 1\n\n"]
+    for o in odd:
+        yield Case("c13x.rtsp 0 0 %s" % hex_tok(o), cls="x-rtsp-odd")
+        yield Case("c13x.rtsp 0 1 %s" % hex_tok(o + rtsp_req("OPTIONS", u, 2)), cls="x-rtsp-odd")
+        yield Case("c13x.rtsp 1 0 %s" % hex_tok(ws_frame(o, mask=rb(rng, 4))), cls="x-rtsp-odd")
+        ann = rtsp_req("ANNOUNCE", u, 1, [], SDP_TEXT)
+        yield Case("c13x.rtsp 0 0 %s" % hex_tok(ann + o), cls="x-rtsp-odd")
+    for _ in range(250 if quick else 40000):
+        ws = rng.random() < 0.3
+        ex = rng.choice([rtsp_pub_exchange(rng), rtsp_sub_exchange(rng)])
+        if rng.random() < 0.5:
+            k = rng.randrange(len(ex))
+            ex = ex[:k] + [text_mutate(rng, ex[k], [b"\r\n", b":", b" ", b";", b"=", b"-", b"$"])] + ex[k + 1:]
+            whole = b"".join(ws_wrap(ex, rng) if ws else ex)
+        else:
+            whole = mutate(rng, b"".join(ws_wrap(ex, rng) if ws else ex))
+        yield Case("c13x.rtsp %d %d %s" % (int(ws), rng.choice([0, 0, 0, 1, 2]), hex_tok(whole)), cls="x-rtsp-mutation")
+    # RTSP client (relay pull): responses of a hostile origin
+    def resp(code, cseq, headers=(), body=b"", reason="OK"):
+        out = ("RTSP/1.0 %s %s\r\nCSeq: %s\r\n" % (code, reason, cseq)).encode()
+        for k, v in headers:
+            out += ("%s: %s\r\n" % (k, v)).encode()
+        if body:
+            out += ("Content-Length: %d\r\n" % len(body)).encode()
+        return out + b"\r\n" + body
+    good = [resp(200, 1, [("Public", "OPTIONS, DESCRIBE, SETUP, TEARDOWN, PLAY")]),
+            resp(200, 2, [("Content-Base", "rtsp://127.0.0.1/live/x/"), ("Content-Type", "application/sdp")], SDP_TEXT),
+            resp(200, 3, [("Transport", "RTP/AVP/TCP;unicast;interleaved=0-1"), ("Session", "12345678;timeout=60")]),
+            resp(200, 4, [("Transport", "RTP/AVP/TCP;unicast;interleaved=2-3"), ("Session", "12345678;timeout=60")]),
+            resp(200, 5, [("Session", "12345678"), ("RTP-Info", "url=x;seq=1;rtptime=0")]),
+            interleaved(0, rtp(96, 1, 0, 7, b"\x65\x01\x02")), interleaved(2, rtp(97, 1, 0, 8, au_payload([b"\x01\x02"]))), interleaved(1, rtcp_sr(7, 1, 2, 3, 4, 5))]
+    yield Case("c13x.rtspclient " + hex_tok(b"".join(good)), cls="x-rtspclient")
+    digest = resp(401, 2, [("WWW-Authenticate", 'Digest realm="r", nonce="n"')], reason="Unauthorized")
+    basic = resp(401, 2, [("WWW-Authenticate", 'Basic realm="r"')], reason="Unauthorized")
+    variants = [[good[0], digest] + good[1:], [good[0], basic] + good[1:], [good[0], digest, digest], [digest], [resp(401, 1, [("WWW-Authenticate", "Digest")])] + good,
+                [resp(401, 1, [("WWW-Authenticate", 'Digest realm="')])] + good, [resp(401, 1, [("WWW-Authenticate", "")])] + good, [resp(401, 1)] + good,
+                [good[0], resp(200, 2, [("Content-Type", "application/sdp")], b"m=video\r\na=rtpmap:96\r\n")], [good[0], resp(200, 2)], [good[0], good[1], resp(200, 3)],
+                [good[0], good[1], resp(200, 3, [("Transport", "interleaved=x-y"), ("Session", "")])], [good[0], good[1], resp(200, 3, [("Transport", ""), ("Session", ";")]), good[3], good[4]],
+                [resp(200, 1, [("Public", "GET_PARAMETER")])] + good[1:] + [resp(200, 6), interleaved(0, rtp(96, 2, 0, 7, b"\x41"))], [resp(302, 1, [("Location", "rtsp://x")])],
+                [b"RTSP/1.0\r\n\r\n"], [b"\r\n\r\n"], [b"HTTP/1.1 200 OK\r\nContent-Length: 99999999999\r\n\r\n"], [b"RTSP/1.0 200 OK\r\nContent-Length: -5\r\n\r\nabc"]]
+    for clk in (0, 999, 4294967296000):
+        variants.append([good[0], resp(200, 2, [("Content-Type", "application/sdp")], SDP_TEXT.replace(b"90000", str(clk).encode()).replace(b"44100", str(clk).encode()))] + good[2:])
+    for v in variants:
+        yield Case("c13x.rtspclient " + hex_tok(b"".join(v)), cls="x-rtspclient")
+    whole = b"".join(good)
+    for cut in range(0, len(whole), 97 if quick else 5):
+        yield Case("c13x.rtspclient " + hex_tok(whole[:cut]), cls="x-rtspclient")
+    for _ in range(12 if quick else 3000):
+        k = rng.randrange(len(good))
+        g = good[:k] + [text_mutate(rng, good[k], [b"\r\n", b":", b" ", b";", b"=", b"-", b"$"])] + good[k + 1:]
+        yield Case("c13x.rtspclient " + hex_tok(b"".join(g)), cls="x-rtspclient")
+    # HTTP API JSON bodies
+    bodies = {"start_relay_pull": b'{"url": "rtmp://127.0.0.1/live/test110", "stream_name": "test110", "pull_timeout_ms": 10000, "pull_retry_num": 0, "auto_stop_pull_after_no_out_ms": -1, "rtsp_mode": 0}',
+              "kick_session": b'{"stream_name": "test110", "session_id": "FLVSUB1"}', "start_rtp_pub": b'{"stream_name": "test110", "port": 0, "timeout_ms": 10000, "is_tcp_flag": 1}',
+              "add_ip_blacklist": b'{"ip": "127.0.0.1", "duration_sec": 60}', "stop_relay_pull": b'{"stream_name": "x"}'}
+    weird = [b"", b"{", b"}", b"null", b"[]", b"0", b'""', b"{}", b'{"url":null}', b'{"url":1}', b'{"url":[]}', b'{"url":{}}', b'{"url":"a","url":"b"}', b'{"url":"\xff\xfe"}', b'{"url":"\\ud800"}',
+             b'{"pull_timeout_ms":1e999,"url":"x"}', b'{"pull_timeout_ms":99999999999999999999,"url":"x"}', b'{"pull_timeout_ms":"1","url":"x"}', b'{"port":-1,"stream_name":"x"}',
+             b'{"port":65536.5,"stream_name":"x"}', b'{"duration_sec":-1,"ip":"x"}', b"[" * 2000, b"[" * 20000 + b"]" * 20000, b'{"a":' * 3000 + b"1" + b"}" * 3000, b'{"url":"' + b"a" * 70000 + b'"}',
+             b'\xef\xbb\xbf{"url":"x"}', b'{"url":"x"} trailing', b"{'url':'x'}", b'{"url":"x",}', b'{"stream_name":true,"session_id":false}']
+    for kind, body in bodies.items():
+        yield Case("c13x.api %s %s" % (kind, hex_tok(body)), cls="x-api")
+        for w in weird:
+            yield Case("c13x.api %s %s" % (kind, hex_tok(w)), cls="x-api")
+        for cut in range(0, len(body), 3 if quick else 1):
+            yield Case("c13x.api %s %s" % (kind, hex_tok(body[:cut])), cls="x-api")
+        for _ in range(40 if quick else 10000):
+            yield Case("c13x.api %s %s" % (kind, hex_tok(text_mutate(rng, body, [b'"', b":", b",", b"{", b"}", b"[", b"]", b"\\", b"null", b"1e9", b"-"]))), cls="x-api")
+
+
 def gen_cases(tier, rng):
-    for g in (gen_rtp, gen_rtcp, gen_insess, gen_ilv, gen_ws, gen_ps):
+    for g in (gen_rtp, gen_rtcp, gen_insess, gen_ilv, gen_ws, gen_ps, gen_rtmpc, gen_text, gen_sessions):
         for c in g(tier, rng):
             yield c
 
